@@ -331,7 +331,9 @@ func partsLoopsOf(p *Program, fn *ssa.Function) []partsLoop {
 func rulePartsLoop(r *Run, fn *ssa.Function) int {
 	p := r.P
 	n := 0
-	isCreate := func(cn string) bool { return cn == "(*archive/zip.Writer).Create" || cn == "(*archive/zip.Writer).CreateHeader" }
+	isCreate := func(cn string) bool {
+		return cn == "(*archive/zip.Writer).Create" || cn == "(*archive/zip.Writer).CreateHeader"
+	}
 	isWrite := func(cn string) bool { return strings.HasSuffix(cn, ".Write") || strings.HasSuffix(cn, ").Write") }
 	for _, pl := range partsLoopsOf(p, fn) {
 		l := pl.L
